@@ -1,3 +1,5 @@
+import Varint.Bridge.Tagged
+import Varint.Lemmas.Canon
 import Varint.Lemmas.Spec
 import Varint.Lemmas.Mono
 import Varint.Lemmas.External
@@ -358,5 +360,78 @@ theorem zigzag_def (n : Int) (hlo : -(2 ^ 63 : Int) ≤ n) (hhi : n < (2 ^ 63 : 
 example : Tagged.enc 2288 = [249, 0, 0] ∧ Spec.tagged 2288 = [249, 0, 0] := by decide
 example : Spec.chained 16384 = [129, 128, 0] := by decide
 example : Spec.leb128cap9 300 = [172, 2] := by decide
+
+
+
+/-! ## byte-exactness of the C ITSELF (translation regenerated from src/varintTagged.c on every run) -/
+
+/-- the bytes varintTaggedPut64 stores are the documented sqlite4 format's bytes, and varintTaggedLen is the
+    documented length — for all 2^64 values -/
+theorem c_tagged_spec_valid (x : Nat) (hx : x < 2 ^ 64) :
+    (Varint.Gen.C.taggedPut64 x).2.map Prod.snd = Spec.tagged x ∧
+    (Varint.Gen.C.taggedPut64 x).2.map Prod.fst = List.range (Spec.tagged x).length ∧
+    Varint.Gen.C.taggedLen x = (Spec.tagged x).length := by
+  obtain ⟨h1, h2, h3⟩ := Varint.Bridge.Tagged.taggedPut64_eq x hx
+  have hs := tagged_enc_eq_spec x hx
+  rw [h2, h3, Varint.Bridge.Tagged.taggedLen_eq x hx, ← hs, Tagged.enc_length]
+  exact ⟨rfl, rfl, rfl⟩
+
+/-! ## canonicity stated on the decoders: among ALL byte strings a reader accepts for a value, none is
+    shorter than the encoder's output, and one of the same length IS the encoder's output — so the encoder
+    emits the one shortest encoding of its family. (Readers also accept over-long spellings with leading zero
+    groups; that is why the first statement is ≤.) -/
+
+theorem tagged_unique_in_class (bs : List Nat) (v l : Nat) (hb : ∀ b ∈ bs, b < 256)
+    (h : Tagged.get bs = .ok v l) (hl : l = Tagged.len v) : bs.take l = Tagged.enc v :=
+  Tagged.get_canonical bs v l hb h hl
+
+theorem chained_canonical (bs : List Nat) (v l : Nat) (hb : ∀ b ∈ bs, b < 256) (h : Chained.dec bs = some (v, l)) :
+    Chained.len v ≤ l ∧ (l = Chained.len v → bs.take l = Chained.enc v) :=
+  ⟨Chained.dec_len_le bs v l hb h, Chained.dec_canonical bs v l hb h⟩
+
+theorem csimple_canonical (bs : List Nat) (v l : Nat) (hb : ∀ b ∈ bs, b < 256)
+    (h : ChainedSimple.dec bs = some (v, l)) :
+    ChainedSimple.len v ≤ l ∧ (l = ChainedSimple.len v → bs.take l = ChainedSimple.enc v) :=
+  ⟨ChainedSimple.dec_len_le bs v l hb h, ChainedSimple.dec_canonical bs v l hb h⟩
+
+/-- external (width out of band): a w-byte slice that reads as v has w ≥ the minimal width, is the encoder's
+    slice when w is minimal, and the byte-slice ↦ value maps are injective at fixed width -/
+theorem external_canonical (bs : List Nat) (w v : Nat) (hb : ∀ b ∈ bs, b < 256) (hw : 1 ≤ w) :
+    (External.get bs w = some v → extLen v ≤ w ∧ (w = extLen v → bs.take w = External.enc v)) ∧
+    (ExternalBE.get bs w = some v → extLen v ≤ w ∧ (w = extLen v → bs.take w = ExternalBE.enc v)) :=
+  ⟨fun h => ⟨External.get_len_le bs w v hb hw h, External.get_canonical bs w v hb h⟩,
+   fun h => ⟨ExternalBE.get_len_le bs w v hb hw h, ExternalBE.get_canonical bs w v hb h⟩⟩
+
+theorem external_injective (a b : List Nat) (hlen : a.length = b.length)
+    (ha : ∀ x ∈ a, x < 256) (hb : ∀ x ∈ b, x < 256) :
+    (ofLe a = ofLe b → a = b) ∧ (ofBe a = ofBe b → a = b) :=
+  ⟨fun h => ofLe_injective a b h hlen ha hb, fun h => ofBe_injective a b h hlen ha hb⟩
+
+/-- the split families: the same two statements hold for every first byte the ENCODERS can produce. The
+    side conditions exclude exactly the spellings the readers accept but no encoder emits: the reserved
+    prefix / a var tag announcing a width below the family's minimum, the var-level spelling of the previous
+    level's maximum, and var tags with the ignored bits 4–5 set (examples below). -/
+theorem split_canonical (bs : List Nat) (v l : Nat) (hb : ∀ b ∈ bs, b < 256) :
+    (Split.S.dec bs = some (v, l) →
+      ((∀ b0 ∈ bs.head?, b0 < 192 ∧ b0 ≠ 128) → Split.S.len v ≤ l) ∧
+      (bs.take 2 ≠ [129, 0] → l = Split.S.len v → bs.take l = Split.S.enc v)) ∧
+    (Split.F.dec bs = some (v, l) →
+      ((∀ b0 ∈ bs.head?, b0 < 192 ∨ 2 ≤ b0 % 16) → Split.F.len v ≤ l) ∧
+      ((∀ b0 ∈ bs.head?, b0 < 208) → bs.take 3 ≠ [194, 0, 0] → l = Split.F.len v → bs.take l = Split.F.enc v)) ∧
+    (Split.NZ.dec bs = some (v, l) →
+      ((∀ b0 ∈ bs.head?, b0 < 192 ∨ 2 ≤ b0 % 16) → Split.NZ.len v ≤ l) ∧
+      ((∀ b0 ∈ bs.head?, b0 < 208) → bs.take 3 ≠ [194, 0, 0] → l = Split.NZ.len v → bs.take l = Split.NZ.enc v)) ∧
+    (Split.S16.dec bs = some (v, l) →
+      ((∀ b0 ∈ bs.head?, b0 < 192 ∨ 4 ≤ b0 % 16) → Split.S16.len v ≤ l) ∧
+      ((∀ b0 ∈ bs.head?, b0 < 208) → bs.take 4 ≠ [195, 0, 0, 0] → l = Split.S16.len v → bs.take l = Split.S16.enc v)) :=
+  ⟨fun h => ⟨fun hw => Split.S.dec_len_le bs v l hb hw h, fun hx hl => Split.S.dec_canonical bs v l hb hx h hl⟩,
+   fun h => ⟨fun hw => Split.F.dec_len_le bs v l hb hw h, fun h208 hx hl => Split.F.dec_canonical bs v l hb h208 hx h hl⟩,
+   fun h => ⟨fun hw => Split.NZ.dec_len_le bs v l hb hw h, fun h208 hx hl => Split.NZ.dec_canonical bs v l hb h208 hx h hl⟩,
+   fun h => ⟨fun hw => Split.S16.dec_len_le bs v l hb hw h, fun h208 hx hl => Split.S16.dec_canonical bs v l hb h208 hx h hl⟩⟩
+
+/-- reader leniency (not produced by any encoder): an over-long chained spelling of 0; the var-level spelling
+    of varintSplit's level-1 maximum next to the encoder's bytes -/
+example : Chained.dec [0x80, 0x00] = some (0, 2) ∧ Chained.len 0 = 1 := by decide
+example : Split.S.dec [129, 0] = some (16446, 2) ∧ Split.S.enc 16446 = [127, 255] := by decide
 
 end Varint.Props.C04
